@@ -224,7 +224,7 @@ def tie(ctx):
         if len(samples) < 4 and real["kind"] == "error":
             samples.append({"scenario": c["scenario"], "user_structure": c["user_structure"], "measured": res["meas"], "outcome": real})
     return {"families": fam, "violations": violations, "evaluations": len(cases), "distinct_nontrivial": len(distinct),
-            "rule": "generated genes (pseudogene + deletion allele) x {normal, no reads in locus, depth 0-1, empty neutral region, pseudogene-only reads} x {profile from BAM, user-supplied structure} x {no output, simple output}; simulated error-free BAMs; every case non-trivial; distinct by hash",
+            "rule": "generated genes (pseudogene + deletion allele, half of them with only 2-3 copy-number regions; plus genes without any structural allele) x {normal, no reads in locus, depth 0-1, empty neutral region, pseudogene-only reads} x {profile from BAM, user-supplied structure} x {no output, simple output}; simulated error-free BAMs; every case non-trivial; distinct by hash",
             "samples": samples, "stats": dict(stats)}
 
 
